@@ -50,9 +50,14 @@ Section MsIndT.
 End MsIndT.
 
 (* ------------------------------------------------------------------ decimal numbers *)
+Lemma ten_nz : 10 <> 0. Proof. discriminate. Qed.
+Ltac dm n :=
+  pose proof (N.div_mod n 10 ten_nz) as Hdm; pose proof (N.mod_lt n 10 ten_nz) as Hm;
+  set (q := n / 10) in *; set (r := n mod 10) in *; clearbody q r.
+
 Lemma is_digit_d : forall n, is_digit (48 + n mod 10) = true.
 Proof.
-  intros n. unfold is_digit. pose proof (N.mod_lt n 10 ltac:(lia)).
+  intros n. unfold is_digit. dm n.
   apply andb_true_intro. split; apply N.leb_le; lia.
 Qed.
 
@@ -61,16 +66,17 @@ Lemma dval_dec_aux : forall f n acc, n < 10 ^ N.of_nat f ->
 Proof.
   induction f as [|f IH]; intros n acc Hn.
   - cbn in Hn. assert (n = 0) by lia. subst. reflexivity.
-  - cbn [dec_aux]. pose proof (N.div_mod n 10 ltac:(lia)) as Hdm.
-    pose proof (N.mod_lt n 10 ltac:(lia)) as Hm.
+  - cbn [dec_aux]. rewrite Nat2N.inj_succ, N.pow_succ_r' in Hn.
+    set (p := 10 ^ N.of_nat f) in *.
     destruct (n / 10 =? 0) eqn:E.
     + apply N.eqb_eq in E. cbn [dval]. rewrite is_digit_d.
-      replace (0 * 10 + (48 + n mod 10 - 48)) with n by lia. reflexivity.
+      replace (0 * 10 + (48 + n mod 10 - 48)) with n; [reflexivity|].
+      dm n. lia.
     + apply N.eqb_neq in E. rewrite IH.
       * cbn [dval]. rewrite is_digit_d.
-        replace (n / 10 * 10 + (48 + n mod 10 - 48)) with n by lia. reflexivity.
-      * rewrite Nat2N.inj_succ, N.pow_succ_r' in Hn.
-        apply N.div_lt_upper_bound; lia.
+        replace (n / 10 * 10 + (48 + n mod 10 - 48)) with n; [reflexivity|].
+        dm n. lia.
+      * fold p. clearbody p. dm n. lia.
 Qed.
 
 Lemma dec_aux_head : forall f n acc, 0 < n -> n < 10 ^ N.of_nat f ->
@@ -78,12 +84,14 @@ Lemma dec_aux_head : forall f n acc, 0 < n -> n < 10 ^ N.of_nat f ->
 Proof.
   induction f as [|f IH]; intros n acc Hp Hn.
   - cbn in Hn. lia.
-  - cbn [dec_aux]. pose proof (N.div_mod n 10 ltac:(lia)) as Hdm.
-    pose proof (N.mod_lt n 10 ltac:(lia)) as Hm.
+  - cbn [dec_aux]. rewrite Nat2N.inj_succ, N.pow_succ_r' in Hn.
+    set (p := 10 ^ N.of_nat f) in *.
     destruct (n / 10 =? 0) eqn:E.
-    + apply N.eqb_eq in E. exists (48 + n mod 10), acc. split; [reflexivity|]. lia.
-    + apply N.eqb_neq in E. apply IH; [lia|].
-      rewrite Nat2N.inj_succ, N.pow_succ_r' in Hn. apply N.div_lt_upper_bound; lia.
+    + apply N.eqb_eq in E. exists (48 + n mod 10), acc. split; [reflexivity|].
+      dm n. lia.
+    + apply N.eqb_neq in E. apply IH.
+      * dm n. lia.
+      * fold p. clearbody p. dm n. lia.
 Qed.
 
 Lemma dec_fuel : forall n, 0 < n -> n < 10 ^ N.of_nat (S (N.to_nat (N.log2 n))).
@@ -107,6 +115,12 @@ Proof.
     by (symmetry; apply andb_true_intro; split; apply N.leb_le; lia).
   unfold u32_from_str. rewrite Hv. cbn [dval].
   replace (n <=? U32_MAX) with true by (symmetry; apply N.leb_le; lia). reflexivity.
+Qed.
+
+Lemma dval_dec : forall n, dval (dec n) 0 = Some n.
+Proof.
+  intros n. destruct (N.eq_dec n 0) as [->|Hz]; [reflexivity|].
+  unfold dec. rewrite dval_dec_aux; [reflexivity|]. apply dec_fuel. lia.
 Qed.
 
 Global Opaque dec.
@@ -339,6 +353,13 @@ Proof.
   apply N.ltb_ge in H. exact H.
 Qed.
 
+Lemma validate_pos : forall max k n, validate_k_n max k n = true -> k <> 0.
+Proof.
+  intros max k n H. unfold validate_k_n in H. apply negb_true_iff in H.
+  apply orb_false_iff in H. destruct H as [H _]. apply orb_false_iff in H. destruct H as [H _].
+  apply N.eqb_neq in H. exact H.
+Qed.
+
 Lemma validate_max : forall max k n, max <> 0 -> validate_k_n max k n = true -> N.of_nat n <= max.
 Proof.
   intros max k n Hm H. unfold validate_k_n in H. apply negb_true_iff in H.
@@ -348,7 +369,22 @@ Proof.
 Qed.
 
 Ltac tok := match goal with H : ms_text_ok _ = true |- _ =>
-  cbn [MsTextModel.ms_text_ok] in H; repeat (apply andb_prop in H; let H' := fresh "Hok" in destruct H as [H H']) end.
+  cbn [MsTextModel.ms_text_ok] in H end;
+  repeat match goal with H : (_ && _) = true |- _ => apply andb_prop in H; destruct H end;
+  try match goal with H : chk _ = true |- _ => rename H into Hchk end;
+  try match goal with H : lock_ok _ = true |- _ => rename H into Hlock end;
+  try match goal with H : validate_k_n _ _ _ = true |- _ => rename H into Hval end;
+  try match goal with H : (_ <=? U32_MAX) = true |- _ => rename H into Hkle end;
+  try match goal with H : forallb _ _ = true |- _ => rename H into Hall end.
+
+Lemma check_ok : forall x, ms_text_ok (MCheck x) = true ->
+  (forall k, x <> MPkK k) -> (forall k, x <> MPkH k) -> chk (MCheck x) = true /\ ms_text_ok x = true.
+Proof.
+  intros x H H1 H2.
+  destruct x; try (exfalso; eapply H1; reflexivity); try (exfalso; eapply H2; reflexivity);
+    cbn [MsTextModel.ms_text_ok] in H; apply andb_prop in H; destruct H as [Ha Hb];
+    (split; [exact Ha | cbn [MsTextModel.ms_text_ok]; exact Hb]).
+Qed.
 
 Lemma child_run2 : forall pre name x y st,
   nocolon pre = true -> nocolon name = true -> is_multi_name name = false -> tb_eqb name n_thresh = false ->
@@ -409,12 +445,12 @@ Proof.
     cbn. unfold hash_frag, verify_terminal_parent, verify_terminal. cbn. rewrite hash_rt. reflexivity.
   - (* after *) tok. eapply (P_node _ n_after _ FAfter); try reflexivity. intros pre st Hp. exists st. split; [apply kids_one_leaf|].
     cbn [MsTextModel.parse_frag]. unfold verify_lock. cbn [leaf n_kids t_name length].
-    assert (t <= U32_MAX) by (unfold lock_ok in Hok0; apply andb_prop in Hok0; destruct Hok0 as [_ H]; apply N.leb_le in H; unfold U32_MAX; lia).
-    rewrite parse_num_dec by assumption. rewrite Hok0. reflexivity.
+    assert (t <= U32_MAX) by (pose proof Hlock as H; unfold lock_ok in H; apply andb_prop in H; destruct H as [_ H]; apply N.leb_le in H; unfold U32_MAX; lia).
+    rewrite parse_num_dec by assumption. rewrite Hlock. reflexivity.
   - tok. eapply (P_node _ n_older _ FOlder); try reflexivity. intros pre st Hp. exists st. split; [apply kids_one_leaf|].
     cbn [MsTextModel.parse_frag]. unfold verify_lock. cbn [leaf n_kids t_name length].
-    assert (t <= U32_MAX) by (unfold lock_ok in Hok0; apply andb_prop in Hok0; destruct Hok0 as [_ H]; apply N.leb_le in H; unfold U32_MAX; lia).
-    rewrite parse_num_dec by assumption. rewrite Hok0. reflexivity.
+    assert (t <= U32_MAX) by (pose proof Hlock as H; unfold lock_ok in H; apply andb_prop in H; destruct H as [_ H]; apply N.leb_le in H; unfold U32_MAX; lia).
+    rewrite parse_num_dec by assumption. rewrite Hlock. reflexivity.
   - eapply (P_node _ n_sha256 _ (FHash HSha256)); try reflexivity. intros pre st Hp. exists st. split; [apply kids_one_leaf|].
     cbn. unfold hash_frag, verify_terminal_parent, verify_terminal. cbn. rewrite hash_rt. reflexivity.
   - eapply (P_node _ n_hash256 _ (FHash HHash256)); try reflexivity. intros pre st Hp. exists st. split; [apply kids_one_leaf|].
@@ -425,8 +461,10 @@ Proof.
     cbn. unfold hash_frag, verify_terminal_parent, verify_terminal. cbn. rewrite hash_rt. reflexivity.
   - (* a *) tok. eapply (P_wrap ch_a m); try reflexivity; auto.
   - tok. eapply (P_wrap ch_s m); try reflexivity; auto.
-  - (* c *) tok. destruct m;
-      try (eapply (P_wrap ch_c); [reflexivity | reflexivity | reflexivity | assumption | auto]).
+  - (* c *) destruct m;
+      try (apply check_ok in Hok; [| intros ?; discriminate | intros ?; discriminate];
+           destruct Hok as [Hc Hx];
+           eapply (P_wrap ch_c); [reflexivity | reflexivity | reflexivity | exact Hc | apply IHm; exact Hx]).
     + eapply (P_node _ n_pk _ FPk); try reflexivity. intros pre st Hp. exists st. split; [apply kids_one_leaf|].
       cbn. unfold key_frag, verify_terminal_parent, verify_terminal. cbn. rewrite key_rt. reflexivity.
     + eapply (P_node _ n_pkh _ FPkh); try reflexivity. intros pre st Hp. exists st. split; [apply kids_one_leaf|].
@@ -447,7 +485,7 @@ Proof.
       * cbn [MsTextModel.tw]. rewrite Ef. reflexivity.
       * intros pre st Hp. exists (m1 :: m2 :: m3 :: st). split.
         -- apply child_run3; auto.
-        -- cbn [MsTextModel.parse_frag pop obind]. unfold MsTextModel.from_ast. rewrite Hok. reflexivity.
+        -- cbn [MsTextModel.parse_frag pop obind]. unfold MsTextModel.from_ast. rewrite Hchk. reflexivity.
   - tok. eapply (P_binary _ n_or_b FOrB MOrB m1 m2); try reflexivity; auto.
   - tok. eapply (P_binary _ n_or_d FOrD MOrD m1 m2); try reflexivity; auto.
   - tok. eapply (P_binary _ n_or_c FOrC MOrC m1 m2); try reflexivity; auto.
@@ -465,29 +503,60 @@ Proof.
     intros pre st Hp. exists (xs ++ st). split.
     + cbn [rpo_list]. rewrite run_app.
       assert (Hn1 : length (leaf (dec k) :: map to_tree xs) <> 1%nat).
-      { cbn [length]. rewrite map_length. apply validate_le in Hok0. destruct xs; cbn in *; [|lia].
-        unfold validate_k_n in *. lia. }
-      rewrite (child_run_list pre n_thresh _ xs st Hp eq_refl eq_refl Hn1 H Hok2). cbn [obind].
+      { cbn [length]. rewrite map_length. pose proof (validate_le _ _ _ Hval) as Hle.
+        pose proof (validate_pos _ _ _ Hval) as Hnz. destruct xs; [cbn in Hle; lia | cbn [length]; lia]. }
+      rewrite (child_run_list pre n_thresh _ xs st Hp eq_refl eq_refl Hn1 H Hall). cbn [obind].
       apply run_leaf_skipped. apply skip_thresh_k. exact Hp.
     + cbn [MsTextModel.parse_frag]. unfold verify_threshold. cbn [leaf n_kids t_name length].
-      apply N.leb_le in Hok1. rewrite (parse_num_dec k Hok1). rewrite map_length, Hok0. cbn [obind].
-      rewrite pop_n_app. cbn [obind]. unfold MsTextModel.from_ast. rewrite Hok. reflexivity.
+      apply N.leb_le in Hkle. rewrite (parse_num_dec k Hkle). rewrite map_length, Hval. cbn [obind].
+      rewrite ?map_length. rewrite pop_n_app. cbn [obind]. unfold MsTextModel.from_ast. rewrite Hchk. reflexivity.
   - (* multi *) tok.
     eapply (P_multi _ n_multi FMulti MAX_PUBKEYS_PER_MULTISIG MMulti k ks); try reflexivity; auto.
-    apply validate_le in Hok0 as H1. apply validate_max in Hok0 as H2; [|discriminate].
+    apply validate_le in Hval as H1. apply validate_max in Hval as H2; [|discriminate].
     unfold MAX_PUBKEYS_PER_MULTISIG, U32_MAX in *. lia.
   - tok.
     eapply (P_multi _ n_sortedmulti FSortedMulti MAX_PUBKEYS_PER_MULTISIG MSortedMulti k ks); try reflexivity; auto.
-    apply validate_le in Hok0 as H1. apply validate_max in Hok0 as H2; [|discriminate].
+    apply validate_le in Hval as H1. apply validate_max in Hval as H2; [|discriminate].
     unfold MAX_PUBKEYS_PER_MULTISIG, U32_MAX in *. lia.
   - tok.
     eapply (P_multi _ n_multi_a FMultiA MAX_PUBKEYS_IN_CHECKSIGADD MMultiA k ks); try reflexivity; auto.
-    apply validate_le in Hok0 as H1. apply validate_max in Hok0 as H2; [|discriminate].
+    apply validate_le in Hval as H1. apply validate_max in Hval as H2; [|discriminate].
     unfold MAX_PUBKEYS_IN_CHECKSIGADD, U32_MAX in *. lia.
   - tok.
     eapply (P_multi _ n_sortedmulti_a FSortedMultiA MAX_PUBKEYS_IN_CHECKSIGADD MSortedMultiA k ks); try reflexivity; auto.
-    apply validate_le in Hok0 as H1. apply validate_max in Hok0 as H2; [|discriminate].
+    apply validate_le in Hval as H1. apply validate_max in Hval as H2; [|discriminate].
     unfold MAX_PUBKEYS_IN_CHECKSIGADD, U32_MAX in *. lia.
+Qed.
+
+(* ---- no curly braces in printed trees *)
+Lemma hc_mk : forall wb, has_curly (mk_node wb) = existsb has_curly (snd (snd wb)).
+Proof. intros [w [name kids]]. cbn. destruct kids; reflexivity. Qed.
+
+Lemma hc_keys : forall ks, existsb has_curly (map (fun k => leaf (print_key k)) ks) = false.
+Proof. induction ks as [|k r IH]; [reflexivity|]. cbn. exact IH. Qed.
+
+Ltac fin :=
+  cbn [MsTextModel.tw] in *;
+  repeat match goal with |- context [if ?b then _ else _] => destruct b end;
+  unfold wrap in *; cbn [fst snd existsb leaf MsTextModel.has_curly orb map] in *;
+  rewrite ?hc_mk, ?hc_keys;
+  repeat match goal with H : context [has_curly (mk_node _)] |- _ => rewrite hc_mk in H end;
+  try assumption;
+  repeat match goal with H : existsb _ _ = false |- _ => rewrite H end; try reflexivity.
+
+Lemma hc_tw : forall m, existsb has_curly (snd (snd (tw m))) = false.
+Proof.
+  induction m using mst_ind; try (fin; fail).
+  - destruct m; fin.
+  - fin. induction H as [|x r Hx HF IH]; [reflexivity|].
+    cbn [map existsb]. rewrite hc_mk, Hx. exact IH.
+Qed.
+
+Theorem print_parse : forall m, ms_text_ok m = true -> from_tree (to_tree m) = Ok m.
+Proof.
+  intros m Hok. unfold MsTextModel.from_tree.
+  unfold MsTextModel.to_tree at 1. rewrite hc_mk, hc_tw.
+  rewrite (Pbody_plain m None [] (tw_parse m Hok) I). reflexivity.
 Qed.
 
 End TextProofs.
